@@ -770,8 +770,17 @@ type loopInfo struct {
 }
 
 func (c *ExecCtx) loopSpecFor(node ast.Node, rangeX ast.Expr) (*LoopSpec, string) {
-	ord := c.loopOrd
-	c.loopOrd++
+	// the ordinal of a loop statement is fixed at its first encounter: a loop
+	// reached again by another (unmerged) state keeps its number
+	if c.loopIdx == nil {
+		c.loopIdx = map[ast.Node]int{}
+	}
+	ord, seen := c.loopIdx[node]
+	if !seen {
+		ord = c.loopOrd
+		c.loopOrd++
+		c.loopIdx[node] = ord
+	}
 	if c.spec == nil {
 		return nil, fmt.Sprint(ord)
 	}
@@ -1114,6 +1123,9 @@ func (c *ExecCtx) runLoop(st *State, node ast.Node, label string, ls *LoopSpec, 
 	}
 	evalInvMode = true
 	for _, iv := range evalInv(h, c.oldState) {
+		if os.Getenv("GOVC_DEBUG") != "" {
+			fmt.Fprintln(os.Stderr, "assume-inv", lkey, iv.src, "=>", iv.t.String())
+		}
 		h.assumeT(iv.t)
 	}
 	evalInvMode = false
